@@ -137,4 +137,117 @@ inductive Missing (ctx : Ctx) : Tgt → Str → Prop where
   | firstTail {t ts f} : (∃ fuel r, eval fuel ctx t = .ok r ∧ truthy r = false) → Missing ctx (.first ts) f →
       Missing ctx (.first (t :: ts)) f
 
+/-! ### sentence terminators, protected text -/
+
+/-- the text is empty or its last atom is one of the characters `.`, `?`, `!` -/
+def Terminated (r : RT) : Prop := len r = 0 ∨ Flat.terminated Gen.terminators (sem [] r) = true
+
+mutual
+/-- A syntactic condition under which every non-empty value ends with a terminator: a `sentence`
+with `add_period`; a literal that is empty or terminated; a `join` / `toplevel` / `words`,
+`optional`, `first_of`, `tag` or `href` all of whose children satisfy the condition (the value
+ends with the value of one of the children).  (`together`, `names`, `field`, `name_part` and a
+`sentence` without `add_period` do not qualify.) -/
+def endsInSentence : T → Bool
+  | .lit r => len r == 0 || Flat.terminated Gen.terminators (sem [] r)
+  | .sentence _ _ ap _ _ => ap
+  | .join _ _ _ cs => endsInSentenceL cs
+  | .optional cs => endsInSentenceL cs
+  | .firstOf cs => endsInSentenceL cs
+  | .tag _ cs => endsInSentenceL cs
+  | .href _ _ cs => endsInSentenceL cs
+  | .raw _ => false
+  | .together _ _ => false
+  | .field _ _ _ => false
+  | .names _ _ _ _ => false
+  | .namePart _ _ _ _ => false
+def endsInSentenceL : List T → Bool
+  | [] => true
+  | t :: ts => endsInSentence t && endsInSentenceL ts
+end
+
+/-- the atoms (with their markup) that are under `Protected` — braces in the field value -/
+def protAtoms (s : Flat) : Flat := s.filter fun x => Flat.isProt x.2
+
+/-- What `Text.from_latex(v)` denotes (`decode` = identity): the characters of `v` other than
+braces, each under one `Protected` per enclosing brace level (`d` = current level; a stray
+closing brace at level 0 cannot occur in a value that parses). -/
+def flatLatex (d : Nat) : Str → Flat
+  | [] => []
+  | c :: r =>
+    if c = '{' then flatLatex (d + 1) r
+    else if c = '}' then flatLatex (d - 1) r
+    else (.ch c, List.replicate d .prot) :: flatLatex d r
+
+/-- the value with its braces removed -/
+def stripBraces (v : Str) : Str := v.filter fun c => c != '{' && c != '}'
+
+/-! ### field coverage -/
+
+/-- an occurrence of a `field` node whose value is part of the output; `caseChanged`: the node is
+under a `sentence` with `capfirst` / `capitalize`, which may change the case of letters -/
+structure Occ where
+  name : Str
+  fn : ApplyFn
+  raw : Bool
+  caseChanged : Bool
+deriving Repr
+
+/-- the value of a `field` node: the field (own or inherited), parsed by `Text.from_latex`
+(unless `raw`), passed through the node's `apply_func` -/
+def fieldValue (ctx : Ctx) (o : Occ) : Option RT :=
+  match ctx.entry.findField o.name ctx.db with
+  | none => none
+  | some v =>
+    if o.raw then some (applyFn o.fn (.str v))
+    else match fromLatex v with
+      | .error _ => none
+      | .ok r => some (applyFn o.fn r)
+
+mutual
+/-- The `field` nodes that contribute to the output of a successful evaluation (defined along
+the evaluator, with the same fuel): all children of `join` / `together` / `sentence` / `tag` /
+`href` (not the URL, which becomes the link target) / `name_part` without abbreviation, the name
+templates a `names` node evaluates, the children of an `optional` only if none of them fails,
+the chosen alternative of a `first_of`. -/
+def printed : Nat → Ctx → T → List Occ
+  | 0, _, _ => []
+  | fuel + 1, ctx, t =>
+    match t with
+    | .lit _ => []
+    | .raw _ => []
+    | .join _ _ _ cs => printedL fuel ctx cs
+    | .together _ cs => printedL fuel ctx cs
+    | .sentence cf cap _ _ cs => (printedL fuel ctx cs).map fun o => { o with caseChanged := o.caseChanged || cf || cap }
+    | .field n fn raw => [⟨n, fn, raw, false⟩]
+    | .names role _ _ _ =>
+      match (ctx.personTemplates.find? fun p => lower p.1 = lower role) with
+      | none => []
+      | some (_, ts) => printedL fuel ctx ts
+    | .optional cs =>
+      match evalList fuel ctx cs with
+      | .ok _ => printedL fuel ctx cs
+      | .error _ => []
+    | .firstOf cs => printedF fuel ctx cs
+    | .tag _ cs => printedL fuel ctx cs
+    | .href _ _ cs => printedL fuel ctx cs
+    | .namePart _ _ abbr cs => if abbr then [] else printedL fuel ctx cs
+def printedL : Nat → Ctx → List T → List Occ
+  | 0, _, _ => []
+  | _ + 1, _, [] => []
+  | fuel + 1, ctx, t :: ts => printed fuel ctx t ++ printedL fuel ctx ts
+def printedF : Nat → Ctx → List T → List Occ
+  | 0, _, _ => []
+  | _ + 1, _, [] => []
+  | fuel + 1, ctx, t :: ts =>
+    match eval fuel ctx t with
+    | .ok r => if truthy r then printed fuel ctx t else printedF fuel ctx ts
+    | .error _ => []
+end
+
+/-- the text `value` occurs in `out` as a contiguous piece — literally, or (under a `sentence`
+that changes case) up to the case of letters -/
+def Covers (caseChanged : Bool) (value out : Str) : Prop :=
+  if caseChanged then lower value <:+: lower out else value <:+: out
+
 end Pybtex.Tmpl.Spec
